@@ -7,7 +7,7 @@
 From Coq Require Import String List NArith ZArith Bool Lia.
 From SK Require Import lib.Tok lib.LGraph lib.StrJoin model.C10_Model model.C10_Rxn proof.C10_Proof proof.C10_Views proof.C10_Build
   proof.C10_Copy proof.C10_GmlRead proof.C10_GmlWrite proof.C10_Centre proof.C10_Routes proof.C10_Routes2 proof.C10_Hydrogen
-  proof.C10_HRound proof.C10_GmlEH proof.C10_Smart.
+  proof.C10_HRound proof.C10_GmlEH proof.C10_Smart proof.C10_Relabel proof.C10_Reindex proof.C10_ReindexEH.
 Import ListNotations.
 Local Open Scope Z_scope.
 
@@ -80,6 +80,53 @@ Theorem three_routes (r p : gr) (eo : list (N * N)) (eh : bool) :
   reads_centre c (gml_to_its (its_to_gml (rsmi_to_its r p eo true false) true false eh)).
 Proof.
   intros Hr Hp Hb He. apply three_routes_sec; auto. apply eo_covers_spec. exact He.
+Qed.
+
+
+(** ** the same with reindex=True (the default of its_to_gml): every route gives a renumbering of the centre *)
+Definition reads_centre_by (c : gr) (f : N -> N) (X : gr) : Prop :=
+  (forall k, has_node X k = true <-> exists n, In n (node_ids c) /\ k = f n) /\
+  (forall n a, label c n = Some a ->
+     label X (f n) = Some (gml_node (f n) (tg_el (tG_of a)) (tg_ch (tG_of a)) (tg_ch (tH_of a)))) /\
+  (forall u v, In u (node_ids c) -> In v (node_ids c) -> adj X (f u) (f v) = adj c u v).
+
+Lemma centre_roundtrip_reindex_any c (eh : bool) : IOK c -> (forall n a, label c n = Some a -> cval a <= 0) ->
+  reads_centre_by c (mapget (enum_from 1%N (node_ids c))) (gml_to_its (its_to_gml c false true eh)).
+Proof.
+  intros K Hc. destruct eh.
+  - apply (gml_roundtrip_reindex_eh_iok c K Hc).
+  - destruct (gml_roundtrip_reindex_iok c K) as (_ & A1 & A2 & A3 & _). split; [exact A1|split; [exact A2|exact A3]].
+Qed.
+
+Theorem three_routes_reindex (r p : gr) (eo : list (N * N)) (eh : bool) :
+  mol_ok r = true -> mol_ok p = true -> balanced r p = true -> eo_covers r p eo = true ->
+  let c := get_rc (its_construct r p eo) in
+  let fA := mapget (enum_from 1%N (node_ids c)) in
+  let fC := mapget (enum_from 1%N (node_ids (get_rc c))) in
+  reads_centre_by c fA (gml_to_its (smart_to_gml r p eo true true eh)) /\
+  reads_centre_by c fA (gml_to_its (its_to_gml (rsmi_to_its r p eo false false) true true eh)) /\
+  reads_centre_by c fC (gml_to_its (its_to_gml (rsmi_to_its r p eo true false) true true eh)).
+Proof.
+  intros Hr Hp Hb He0 c fA fC. pose proof (eo_covers_spec r p eo He0) as He.
+  pose proof (I_is_ok r p Hr Hp Hb eo He) as HI. pose proof (centre_IOK r p Hr Hp Hb eo He) as K. fold c in K.
+  pose proof (centre_hc_free _ HI) as Hc. fold c in Hc.
+  assert (reads_centre_by c fA (gml_to_its (its_to_gml (its_construct r p eo) true true eh))) as RB.
+  { rewrite its_core_is_centre_export. exact (centre_roundtrip_reindex_any c eh K Hc). }
+  split; [|split].
+  - rewrite two_routes_string_its. exact RB.
+  - exact RB.
+  - unfold rsmi_to_its. cbv iota. fold c. rewrite its_core_is_centre_export.
+    assert (IOK (get_rc c)) as K'.
+    { apply (IOK_transfer c); [exact K|apply get_rc_gwf, rc_is_ok, HI|apply rc_idem_label, HI|apply rc_idem_adj, HI]. }
+    assert (forall n a, label (get_rc c) n = Some a -> cval a <= 0) as Hc'.
+    { intros n a L. apply (Hc n a). unfold c in L. rewrite (rc_idem_label _ HI) in L. exact L. }
+    destruct (centre_roundtrip_reindex_any (get_rc c) eh K' Hc') as (B1 & B2 & B3). fold fC in B1, B2, B3.
+    assert (forall n, In n (node_ids (get_rc c)) <-> In n (node_ids c)) as Hn.
+    { intros n. rewrite <- !has_node_in. unfold has_node. unfold c at 1. rewrite (rc_idem_label _ HI). reflexivity. }
+    split; [|split].
+    + intros k. rewrite B1. split; intros (n & H1 & H2); exists n; (split; [apply Hn; exact H1|exact H2]).
+    + intros n a L. apply B2. unfold c. rewrite (rc_idem_label _ HI). exact L.
+    + intros u v Hu Hv. rewrite B3 by (apply Hn; assumption). unfold c. apply (rc_idem_adj _ HI).
 Qed.
 
 (** ** rsmi_to_its(explicit_hydrogen=True) keeps the total hydrogen count of the ITS (any graphs at all) *)
